@@ -181,7 +181,7 @@ fn add_suspend_resume(sc: &mut Scenario, who: usize, trigger: Trigger, suspensio
 
 pub fn run(ctx: &mut Ctx) {
     ctx.rule = "family 'silence': both modes x closure x 2 NAK procedures x sizes {0,33,100,200}; the entity to be suspended has timers of 1 s and limit 2, its peer 400 s and limit 4; Suspend at the sender \
-or the receiver when the link sees datagram k of either direction, every k of the baseline (exhaustive), Resume 500 ms, 1, 3, 10 or 100 s after the Suspended indication. family 'completion': \
+or the receiver when the link sees datagram k of either direction, every k of the baseline (exhaustive), Resume 500 ms, 1, 3, 10 or 100 s after the Suspended indication; with the receiver suspended in acknowledged mode additionally a Prompt(NAK) from the sender's user in the middle of the suspension. family 'completion': \
 acknowledged and unacknowledged mode, sizes {33,100,200}, timers 3 s limit 4 on both sides, suspension 0, 500, 3000 or 6000 ms, and in acknowledged mode additionally one lost datagram at every ordinal of either direction. \
 family 'sampled': the general scenario generator (both modes, every configuration, up to 3 faults) with a suspension of 0..8 s at either entity at any datagram, judged for silence and timer faults only. \
 Non-trivial = the suspend was processed while the transaction was still active at that entity; distinct by scenario."
@@ -227,7 +227,17 @@ Non-trivial = the suspend was processed while the transaction was still active a
                                 let mut s = base.clone();
                                 add_suspend_resume(&mut s, who, tg.clone(), *len);
                                 // unacknowledged transfers cannot recover what a long-suspended receiver's peer... nothing is lost here: success expected
-                                cases.push(C19Case { sc: s, expect_success: true, peer_long_timers: true });
+                                cases.push(C19Case { sc: s.clone(), expect_success: true, peer_long_timers: true });
+                                // the peer's user prompts the suspended receiver for a NAK in the middle of the suspension: the answer
+                                // has to wait for the resume
+                                if who == 1 && !unack && *len >= 500 {
+                                    s.actions.push(Action {
+                                        trigger: Trigger::OnIndication { entity: 1, put: 0, kind: "suspended".into(), delay_ms: len / 2 },
+                                        entity: 0,
+                                        kind: ActionKind::PromptNak { put: 0 },
+                                    });
+                                    cases.push(C19Case { sc: s, expect_success: true, peer_long_timers: true });
+                                }
                             }
                         }
                     }
@@ -289,8 +299,8 @@ Non-trivial = the suspend was processed while the transaction was still active a
     // datagram; only the clauses that hold whatever the link does are judged here (silence, no timer fault while suspended,
     // no limit fault on suspended time) - completion under loss is the subject of the family above
     use proptest::prelude::*;
-    let strat = (scenario_strategy(Modes::Both, 3), any::<bool>(), any::<bool>(), 0u32..14, 0u64..3, prop_oneof![0u64..50, 0u64..8000]).prop_map(
-        |(mut sc, at_recv, dir, k, d, len)| {
+    let strat = (scenario_strategy(Modes::Both, 3), any::<bool>(), any::<bool>(), 0u32..14, 0u64..3, prop_oneof![0u64..50, 0u64..8000], proptest::option::of((any::<bool>(), 0u64..8000))).prop_map(
+        |(mut sc, at_recv, dir, k, d, len, prompt)| {
             let who = if at_recv { 1 } else { 0 };
             let trigger = if dir {
                 Trigger::OnOrdinal { from: 0, to: 1, ordinal: k, delay_ms: d }
@@ -298,6 +308,13 @@ Non-trivial = the suspend was processed while the transaction was still active a
                 Trigger::OnOrdinal { from: 1, to: 0, ordinal: k % 5, delay_ms: d }
             };
             add_suspend_resume(&mut sc, who, trigger, len);
+            if let Some((nak, after)) = prompt {
+                sc.actions.push(Action {
+                    trigger: Trigger::OnIndication { entity: who, put: 0, kind: "suspended".into(), delay_ms: after },
+                    entity: 0,
+                    kind: if nak { ActionKind::PromptNak { put: 0 } } else { ActionKind::PromptKeepAlive { put: 0 } },
+                });
+            }
             sc.horizon_ms += 10_000;
             C19Case { sc, expect_success: false, peer_long_timers: false }
         },
